@@ -615,3 +615,32 @@ Fixpoint b64dec (t : list N) : option (list N) :=
   end.
 
 Definition is_byte (x : N) : bool := N.ltb x 256.
+
+(* every binary payload of v satisfies okb; with okb = "all elements < 256" this holds of every Python
+   bytes / bytearray / BytesIO object *)
+Fixpoint payloads_ok (okb : bytes -> bool) (v : val) : bool :=
+  match v with
+  | VBytes b | VBytearray b => okb b
+  | VBytesIO c _ => okb c
+  | VList l | VTuple l | VSet l => forallb (payloads_ok okb) l
+  | VDict kvs => forallb (fun kv => payloads_ok okb (snd kv)) kvs
+  | VData _ fl => forallb (fun nv => payloads_ok okb (snd nv)) fl
+  | _ => true
+  end.
+Definition bytes_ok (v : val) : bool := payloads_ok (forallb is_byte) v.
+
+(* accepted by the strict RFC 4648 decoder: alphabet characters only, length a multiple of 4, '=' only as
+   the last one or two characters and then with zero pad bits — "canonical" base64 *)
+Definition b64_canonical (t : str) : bool := match b64dec t with Some _ => true | None => false end.
+
+(* deserialize_extraction's documented failure (ValueError: not a dict / no `_type`) told apart from any
+   other escaping exception *)
+Inductive outcome := OVal (v : val) | OValueError | ORaise.
+Definition from_json_outcome (dec : str -> option bytes) (isspace : N -> bool) (R : registry) (j : json) : outcome :=
+  match j with
+  | JObj kvs =>
+      if has_key K_TYPE kvs
+      then match from_json dec isspace R j with Some v => OVal v | None => ORaise end
+      else OValueError
+  | _ => OValueError
+  end.
